@@ -492,7 +492,7 @@ def _table_of(rows, form):
 
 
 def _rows_now(table):
-    return enc_rows([table] if isinstance(table, dict) else list(table))
+    return enc_rows([table] if isinstance(table, dict) and not isinstance(table, api()['dictable']) else list(table))
 
 
 def obs_from_table(rows, pat, form):
